@@ -1,5 +1,6 @@
 import PdfModel.Model.DateRead
 import PdfModel.Lemmas.Lexer
+import PdfModel.Lemmas.TotalParser   -- also: both files split on `utf8Valid`; the generated matcher lemmas must not be made twice
 
 /-!
   `Date::from_primitive` never panics (C01): the three slicing expressions that would panic off a character boundary
@@ -176,6 +177,7 @@ theorem readDate_total (data : Bytes) : (readDate data).Returns := by
             rw [hc, ht, hz]
             have hr := sign_rel b hs
             simp only [Bool.or_eq_true] at hr
+            unfold relOf
             rcases hr with (hr | hr) | hr
             · simp [hr, Out.Returns]
             · by_cases h1 : ([b] == [45]) = true <;> simp [h1, hr, Out.Returns]
@@ -214,5 +216,50 @@ theorem parseOr_le (s : Bytes) (a b d : Nat) (hd : d ≤ 255) : parseOr s a b d 
     | none => simpa using hd
     | some v => simpa using parseUnsigned_le 255 t v hp
   · exact hd
+
+theorem relOf_le (c : Bytes) (r : Nat) (h : relOf c = .ok r) : r ≤ 2 := by
+  unfold relOf at h
+  repeat' split at h
+  all_goals cases h
+  all_goals omega
+
+/-- what a successful read is made of -/
+theorem readDate_ok_form (data : Bytes) (d : Derive.Date) (h : readDate data = .ok d) :
+    ∃ (y : Bytes) (year : Nat) (time : Bytes) (rel : Nat) (zone : Bytes),
+      parseUnsigned 65535 y = some year ∧ rel ≤ 2 ∧ d = finish year time rel zone := by
+  unfold readDate at h
+  split at h
+  · cases h
+  · split at h
+    · cases h
+    · split at h
+      · cases h
+      · rename_i y _
+        split at h
+        · cases h
+        · rename_i year hy
+          split at h
+          · cases h; exact ⟨y, year, data, 2, [], hy, by omega, rfl⟩
+          · split at h
+            · rename_i c _
+              split at h
+              · rename_i rel hrel
+                split at h
+                · rename_i time zone _ _
+                  cases h
+                  exact ⟨y, year, time, rel, zone, hy, relOf_le c rel hrel, rfl⟩
+                · cases h
+              · cases h
+            · cases h
+
+/-- the fields of a date that was read fit their types (`u16`, `u8`; `TimeRel` has three values) -/
+theorem readDate_bounds (data : Bytes) (d : Derive.Date) (h : readDate data = .ok d) :
+    d.year ≤ 65535 ∧ d.month ≤ 255 ∧ d.day ≤ 255 ∧ d.hour ≤ 255 ∧ d.minute ≤ 255 ∧ d.second ≤ 255 ∧
+    d.rel ≤ 2 ∧ d.tzHour ≤ 255 ∧ d.tzMinute ≤ 255 := by
+  obtain ⟨y, year, time, rel, zone, hy, hr, rfl⟩ := readDate_ok_form data d h
+  simp only [finish]
+  exact ⟨parseUnsigned_le 65535 y year hy, parseOr_le _ _ _ _ (by decide), parseOr_le _ _ _ _ (by decide),
+    parseOr_le _ _ _ _ (by decide), parseOr_le _ _ _ _ (by decide), parseOr_le _ _ _ _ (by decide), hr,
+    parseOr_le _ _ _ _ (by decide), parseOr_le _ _ _ _ (by decide)⟩
 
 end DateRead
